@@ -19,7 +19,7 @@ import (
 )
 
 type Cfg struct {
-	RepoDir string // root of the repository under test (for schedule traces)
+	RepoDir         string // root of the repository under test (for schedule traces)
 	MaxSteps        int
 	Unwind          int
 	MaxDecisions    int
@@ -199,24 +199,25 @@ type Explorer struct {
 	stop  bool
 
 	// results
-	Paths       int
-	ByOutcome   map[outcome]int
-	Violations  []*PathResult
-	Problems    []*PathResult // bound exceeded, engine errors, unknown
-	Samples     []*PathResult
-	AssertStats map[string]*assertStat
-	ReachStats  map[string]int
-	Funcs       map[string]bool
-	Queries     int
-	SolverTime  time.Duration
-	UnknownQ    int
-	Transitions int
-	MaxDecDepth int
-	Steps       int64
-	started     time.Time
-	sampleSeen  int
-	tier        int
-	initial     []decision
+	Paths          int
+	ByOutcome      map[outcome]int
+	Violations     []*PathResult
+	Problems       []*PathResult // bound exceeded, engine errors, unknown
+	Samples        []*PathResult
+	AssertStats    map[string]*assertStat
+	ReachStats     map[string]int
+	Funcs          map[string]bool
+	Queries        int
+	SolverTime     time.Duration
+	UnknownQ       int
+	SecondOpinions int // queries re-asked to a second solver after a timeout
+	Transitions    int
+	MaxDecDepth    int
+	Steps          int64
+	started        time.Time
+	sampleSeen     int
+	tier           int
+	initial        []decision
 }
 
 type assertStat struct {
@@ -680,6 +681,9 @@ func (in *Interp) feasibleR(c *Term) SatResult {
 	}
 	s := in.solverSynced()
 	r, m := s.Check([]*Term{c}, in.tc.vars, true)
+	if r == Unknown {
+		r, m = in.secondOpinion(c)
+	}
 	switch r {
 	case Sat:
 		in.altModels[c] = m
@@ -692,6 +696,30 @@ func (in *Interp) feasibleR(c *Term) SatResult {
 		in.w.ex.mu.Unlock()
 	}
 	return r
+}
+
+// secondOpinion re-asks a query the worker's solver could not decide within its time
+// limit: a fresh process of the other z3 release, the whole path condition asserted
+// from scratch, four times the time limit. Only if that is undecided too does the
+// query count as unknown (and the check as inconclusive).
+func (in *Interp) secondOpinion(c *Term) (SatResult, Model) {
+	kind := "z3-new"
+	if in.cfg.Solver == "z3-new" {
+		kind = "z3"
+	}
+	s, err := NewSolver(kind, 4*in.cfg.SolverTimeoutMs)
+	if err != nil {
+		return Unknown, nil
+	}
+	defer s.Close()
+	s.intMode = in.cfg.Arith != "bv"
+	for _, p := range in.pc {
+		s.Assert(p)
+	}
+	in.w.ex.mu.Lock()
+	in.w.ex.SecondOpinions++
+	in.w.ex.mu.Unlock()
+	return s.Check([]*Term{c}, in.tc.vars, true)
 }
 
 func (in *Interp) feasible(c *Term) bool { return in.feasibleR(c) != Unsat }
